@@ -528,6 +528,9 @@ func isOpaqueStd(full string) bool {
 func stdEffects(vc *VC, full string, info *types.Info, c *ast.CallExpr, s tsubst) (*Effects, bool) {
 	e := newEffects()
 	switch full {
+	case "(*sync.Mutex).Lock", "(*sync.Mutex).Unlock", "(*sync.Mutex).TryLock":
+		// mutex state is not modelled (trusted contracts in std_contracts.txt: no visible effect)
+		return e, true
 	case "strings.Split", "strings.TrimSpace", "strings.Index", "strings.IndexRune", "strings.ToLower", "strconv.ParseInt", "strings.Join":
 		if full == "strings.Split" {
 			k := vc.sliceKind(types.Typ[types.String])
